@@ -63,6 +63,12 @@ pub struct InnerScript {
     pub strict: bool,
     /// a fresh clone of service `svc` only becomes ready this many ms after it was created
     pub clone_warmup_ms: HashMap<u8, u64>,
+    /// (svc, req id) whose inner future is *busy*: it uses up tokio's cooperative budget at
+    /// every poll until its latency is over (a hot receive loop), instead of sleeping
+    pub busy: std::collections::HashSet<(u8, u32)>,
+    /// simulated tasks keep tokio's cooperative budget (a fresh one per poll, like a spawned
+    /// task) instead of running unconstrained
+    pub constrained_tasks: bool,
 }
 
 pub struct World {
@@ -97,6 +103,12 @@ pub struct World {
     pub buggify_state: u64,
     pub buggify_rate: u64,
     pub intentional_yield: bool,
+    /// set by a busy inner future that has just used up the budget: that poll costs 1 virtual ms
+    pub busy_poll: bool,
+    /// set by a busy inner future before its first budget-burning poll
+    pub busy_mark: bool,
+    /// the task being polled runs with a cooperative budget
+    pub constrained_now: bool,
     pub active: bool,
     pub rng_state: u64,
 }
@@ -131,6 +143,9 @@ impl World {
             buggify_state: 0,
             buggify_rate: 0,
             intentional_yield: false,
+            busy_poll: false,
+            busy_mark: false,
+            constrained_now: false,
             active: false,
             rng_state: 0,
         }
